@@ -141,7 +141,9 @@ def run_case(case: dict[str, Any]) -> dict[str, Any]:
                                  f"(at t={[c['t'] for c in finals]}; {len(relists)} re-listings in that process)", 'witness': None})
                 if not listed and calls:
                     viol.append({'mech': 'resume-on-new-object', 'msg': f"{h} ran for {uid}, which did not exist when {name} started (first seen through the watch)", 'witness': None})
-                if listed and not handled and calls and not any(op_created_base(w, ix, uid, c) for c in calls):
+                # (an object met at start-up under deletion and never handled before is a deletion with the opted-in resume handlers mixed in:
+                #  the statement is silent about it; only a plain creation mistaken for a resuming is a violation)
+                if listed and not handled and calls and not any(op_created_base(w, ix, uid, c) for c in calls) and not all(c.get('deleting') for c in calls):
                     viol.append({'mech': 'resume-on-unhandled-object', 'msg': f"{h} ran for {uid} (reason {calls[0].get('reason')}), which had never been handled before {name} started: it is a creation, not a resuming", 'witness': None})
                 for c in calls:
                     if c['deleting'] and not opted:
